@@ -123,7 +123,116 @@ theorem after_close (ops : List Op) (s s' : St) (h : run fails (init none) ops =
     · rw [hp, ← hi.split, hh, List.append_assoc, List.find?_append]
       have : pre.find? fails = none := by
         rw [List.find?_eq_none]; intro x hx; simp [hpre x hx]
-      simp [this, List.find?, hf]
+      simp [this, hf]
+
+/-! ### Nothing is lost when `handle_events` returns; the wait for the handler thread must be unlimited -/
+
+theorem mem_upto_or_failure (l : List Nat) (e : Nat) (h : e ∈ l) :
+    e ∈ uptoFirstFailure fails l ∨ (l.find? fails).isSome = true := by
+  induction l with
+  | nil => cases h
+  | cons x xs ih =>
+    by_cases hx : fails x = true
+    · right; simp [List.find?, hx]
+    · have hx' : fails x = false := by simpa using hx
+      rcases List.mem_cons.mp h with rfl | hm
+      · left; simp [uptoFirstFailure, hx']
+      · rcases ih hm with h1 | h2
+        · left; simp [uptoFirstFailure, hx', h1]
+        · right; simpa [List.find?, hx'] using h2
+
+/-- **After `handle_events` has returned every fired event was handled or a failure is pending** — whatever the
+    schedule before the exit, in particular when the handler thread did not get to run at all since some event (a handler
+    that is slow, or blocked, while the exit is attempted): the exit waits for it.  This is the fact the oracle of the em
+    stream states on the real code (`C11/events-lost-after-close`, `C11/failure-not-reported`). -/
+theorem after_close_nothing_lost (ops : List Op) (s s' : St) (h : run fails (init none) ops = some s)
+    (hc : close fails s = some s') :
+    (∀ e ∈ s.fired, e ∈ s'.handled ∨ s'.pending.isSome = true) ∧
+    (∀ e ∈ s.fired, fails e = true → s'.pending.isSome = true) := by
+  obtain ⟨h1, _, h3⟩ := after_close fails ops s s' h hc
+  refine ⟨fun e he => ?_, fun e he hf => ?_⟩
+  · rw [h1, h3]; exact mem_upto_or_failure fails s.fired e he
+  · rw [h3]
+    cases hfind : s.fired.find? fails with
+    | some _ => rfl
+    | none => rw [List.find?_eq_none] at hfind; simpa [hf] using hfind e he
+
+/-- The exit of the real code is the unlimited one (`thread.join()`; table `emJoinLimit`, obligation `em_join_is_unlimited`). -/
+theorem closeWithin_none (s : St) : closeWithin fails none s = close fails s := rfl
+
+/-- A limit that covers the backlog changes nothing: the outcome of a run does not depend on it. -/
+theorem closeWithin_enough (k : Nat) (s : St) (hk : s.queue.length ≤ k) :
+    closeWithin fails (some k) s = close fails s := by
+  simp [closeWithin, close, Nat.min_eq_right hk]
+
+/-- … hence `after_close_nothing_lost` for every limit that covers the backlog. -/
+theorem after_close_within_nothing_lost (ops : List Op) (s s' : St) (k : Nat) (h : run fails (init none) ops = some s)
+    (hk : s.queue.length ≤ k) (hc : closeWithin fails (some k) s = some s') :
+    ∀ e ∈ s.fired, e ∈ s'.handled ∨ s'.pending.isSome = true := by
+  rw [closeWithin_enough fails k s hk] at hc
+  exact (after_close_nothing_lost fails ops s s' h hc).1
+
+/-- **Why the wait must be unlimited**: with a limited wait (`thread.join(timeout)`) and a backlog the handler does not get
+    through in time, `handle_events` returns although the handler of event 2 — which raises — has not run: no failure is
+    pending, the run would end normally and the failure is silent (seeded change C11-12's mechanism, for ANY limit: k
+    events of backlog + 1). -/
+theorem limited_join_can_lose_a_failure :
+    ((run (· == 2) (init none) [.fire 0, .fire 1, .fire 2]).bind (closeWithin (· == 2) (some 1))).map
+      (fun s => (s.handled, s.pending, threadEnded s)) = some ([0], none, false) := by decide
+
+theorem limited_join_loses_for_every_limit (k : Nat) :
+    ∃ s s', run (· == k + 1) (init none) ((List.range (k + 2)).map Op.fire) = some s ∧
+      closeWithin (· == k + 1) (some k) s = some s' ∧ (k + 1) ∈ s.fired ∧ s'.pending = none := by
+  have hrun : ∀ (n : Nat) (s : St), s.cap = none →
+      run (· == k + 1) s ((List.range' s.fired.length n).map Op.fire) =
+        some { s with queue := s.queue ++ List.range' s.fired.length n, fired := s.fired ++ List.range' s.fired.length n } := by
+    intro n
+    induction n with
+    | zero => intro s _; simp [run]
+    | succ n ih =>
+      intro s hc
+      rw [List.range'_succ, List.map_cons, run]
+      simp only [step, fire, canPut, hc, if_true]
+      have := ih { s with queue := s.queue ++ [s.fired.length], fired := s.fired ++ [s.fired.length] } hc
+      simp only [List.length_append, List.length_singleton, hc] at this
+      rw [this]; simp [List.append_assoc]
+  have h0 := hrun (k + 2) (init none) rfl
+  simp only [init, List.length_nil, List.nil_append, ← List.range_eq_range'] at h0
+  refine ⟨_, drain (· == k + 1) (min k (List.range (k + 2)).length)
+    { cap := none, queue := List.range (k + 2), alive := true, handled := [], pending := none, fired := List.range (k + 2) },
+    h0, ?_, ?_, ?_⟩
+  · simp only [closeWithin, canPut, if_true]
+  · simp
+  · -- k iterations handle events 0..k-1, none of which fails
+    have hd : ∀ (n : Nat) (s : St), s.alive = true → s.pending = none → (∀ e ∈ s.queue.take n, (e == k + 1) = false) →
+        (drain (· == k + 1) n s).pending = none := by
+      intro n
+      induction n with
+      | zero => intro s _ hp _; simpa [drain] using hp
+      | succ n ih =>
+        intro s ha hp hq
+        cases hqq : s.queue with
+        | nil => simp [drain, handle, ha, hqq, hp]
+        | cons e q =>
+          have he : (e == k + 1) = false := hq e (by simp [hqq])
+          simp only [drain, handle, ha, hqq, if_true, he, Bool.false_eq_true, if_false]
+          refine ih _ rfl hp ?_
+          intro x hx; apply hq; simp only [hqq, List.take_succ_cons]; exact List.mem_cons_of_mem _ hx
+    apply hd _ _ rfl rfl
+    intro e he
+    simp only [List.length_range] at he
+    have : e ∈ (List.range (k + 2)).take k := by simpa [Nat.min_eq_left (Nat.le_add_right k 2)] using he
+    rw [List.take_range] at this
+    have hlt : e < k := by simpa [Nat.min_eq_left (Nat.le_add_right k 2)] using this
+    simp; omega
+
+/-- After the (unlimited) exit the handler thread has ended: it is never left running behind the run. -/
+theorem handler_thread_ended_after_close (ops : List Op) (s s' : St) (h : run fails (init none) ops = some s)
+    (hc : close fails s = some s') : threadEnded s' = true := by
+  have hcap : s.cap = none := by rw [cap_run ops h]; rfl
+  simp only [close, canPut, hcap, if_true, Option.some.injEq] at hc
+  subst hc
+  exact drain_ended fails s.queue.length s (Nat.le_refl _)
 
 /-! ### Non-vacuity, and why the queue must be unbounded -/
 
